@@ -527,6 +527,7 @@ fn search(r: &mut Rng, n: usize) {
     routing_corpus(&mut rep, &mut ev, r);
     round5_corpus(&mut rep, &mut ev);
     round6_corpus(&mut rep, &mut ev);
+    round7_corpus(&mut rep, &mut ev);
     let mut i = 0;
     while i < n {
         i += 1;
@@ -1206,6 +1207,30 @@ fn map_arg_case(rep: &mut Rep, ev: &mut usize, prog: &str, keys: &Value, vals: &
         let class = if matches!(&imp, Err(e) if e.starts_with("MALFORMED")) { "malformed-result" } else { "map-keys" };
         rep.report("map-arg", class, prog, "direct", prog, &args, &show_h(&hand), &show_r(&imp));
     }
+}
+
+/// a9d65f9: rows of rotate when a row of the amount holds one amount, a list of amounts (the
+/// rotation at a depth is used) or several lists of amounts (it must not be)
+fn round7_corpus(rep: &mut Rep, ev: &mut usize) {
+    let y = num(&[2, 2, 2], &[1., 2., 3., 4., 5., 6., 7., 8.]);
+    let amounts: Vec<Value> = vec![
+        num(&[2], &[1., 0.]),
+        num(&[2, 2], &[1., 0., 0., 1.]),
+        num(&[2, 1, 2], &[1., 0., 0., 1.]),
+        num(&[2, 2, 2], &[1., 0., 0., 1., 1., 1., 0., 0.]),
+        num(&[2, 1], &[1., 0.]),
+    ];
+    for a in &amounts {
+        for f in ["↻", "˜↻", "(↻⊙⇌)", "(↻¯)"] {
+            if f == "˜↻" {
+                dyadic_rows_case(rep, ev, f, &y, a);
+            } else {
+                dyadic_rows_case(rep, ev, f, a, &y);
+            }
+        }
+    }
+    dyadic_rows_case(rep, ev, "↻", &num(&[1, 2, 2], &[1., 0., 0., 1.]), &num(&[1, 2, 2], &[1., 2., 3., 4.]));
+    dyadic_rows_case(rep, ev, "≡↻", &num(&[2, 2, 2], &[1., 0., 0., 1., 1., 1., 0., 0.]), &y);
 }
 
 fn round6_corpus(rep: &mut Rep, ev: &mut usize) {
